@@ -146,7 +146,8 @@ func VerifC09Callback() {
 	csrf, hasCSRF := "", zz.NondetBool("csrf.present")
 	if hasCSRF {
 		csrf = zz.NondetString("csrf.value")
-		zz.Assume(verifCookieOK(csrf))
+		// any value net/http accepts in a Cookie header (commas included; surrounding spaces are trimmed there)
+		zz.Assume(zz.And(csrf != "", !contains(csrf, ";"), !contains(csrf, " "), !contains(csrf, "\""), !contains(csrf, "\\")))
 		verifSetCookie(req, verifAuthCookie+"_csrf", csrf)
 	}
 	rec := zz.NewRecorder()
